@@ -82,6 +82,9 @@ std::unique_ptr<NodeResult> InputNode::evaluate(PSC::Context &ctx) {
         ctx.addVariable(var);
     }
 
+    if (var->isConstant)
+        throw PSC::ConstAssignError(token, ctx, var->name);
+
     PSC::String inputStr;
     getLine(inputStr.value, "");
 
